@@ -19,7 +19,9 @@ import json
 import os
 import random
 import shutil
+import sys
 
+sys.path.insert(0, os.path.dirname(os.path.dirname(os.path.abspath(__file__))))   # harness/ (for `--judge`)
 import common
 import optlib
 from common import WorkerStats, canon
@@ -138,6 +140,11 @@ def gen_case(rng, base, path=None):
         case['argv'] = optlib.render(case['asgs'], case['sep'], case['pos'])
         if 0.18 <= kind < 0.42:
             case['malformed'] = optlib.inject_malformed(rng, case)
+    if path in ('parse', 'command', 'main') and rng.random() < 0.35:
+        # history: another command line handled first by the same parser / command object / process
+        prev = optlib.render(optlib.gen_asgs(rng, gen_opts, n=rng.randint(1, 4), good_p=0.95), False, [])
+        if not any(a == '' or ('=' in a and not a.startswith('-')) for a in prev):
+            case['prev_argv'] = prev
     if path in ('main', 'creator'):
         # '' as an argument crashes DoitMain.process_args / loader.load_tasks (arg[0]) before any option parsing;
         # `x=1` positionals are command-line variables for DoitMain: both are outside this property
@@ -344,6 +351,10 @@ def shrink(case, label, cap=120):
                 del c['argv'][i]
                 c['asgs'] = None
                 cands.append(c)
+        if cur.get('prev_argv') is not None:
+            c = json.loads(json.dumps(cur))
+            c['prev_argv'] = None
+            cands.append(c)
         for fld in ('env', 'ini', 'glob', 'dodo'):
             for i in range(len(cur[fld])):
                 c = json.loads(json.dumps(cur))
@@ -383,6 +394,51 @@ def shrink(case, label, cap=120):
     return cur
 
 
+def fresh_labels(case):
+    """labels of the property violations of one case in a *new* python process (no state left by earlier cases)"""
+    import subprocess
+    env = dict(os.environ, VERIF_REPO=common.REPO, PYTHONDONTWRITEBYTECODE='1')
+    p = subprocess.run([common.PYTHON, os.path.abspath(__file__), '--judge'], input=json.dumps(case), text=True,
+                       stdout=subprocess.PIPE, stderr=subprocess.PIPE, env=env, timeout=120)
+    try:
+        return [v[0] for v in json.loads(p.stdout.strip().split('\n')[-1])['viol']]
+    except Exception:  # noqa
+        return []
+
+
+def full_assignment_argv(case):
+    """a command line that gives every generated option a value (used as synthetic history)"""
+    out = []
+    for o in case['spec'][case['n_base']:]:
+        key = ('-' + o['short']) if o['short'] else (('--' + o['long']) if o['long'] else None)
+        if key is None:
+            continue
+        if o['type'] == 'bool':
+            out.append(key)
+        else:
+            v = {'int': '3', 'str': 'h', 'list': 'h'}[o['type']]
+            if o['choices']:
+                v = str(o['choices'][0])
+            if v:
+                out += [key, v]
+    return out
+
+
+def standalone_witness(case, small, label):
+    """a violation must replay in a new process.  Try the shrunk case, then the case as found, then both with a
+    synthetic earlier command line (state leaking from earlier parses).  Returns (case, reproduced?)"""
+    for cand in (small, case):
+        if label in fresh_labels(cand):
+            return cand, True
+    if case['path'] in ('parse', 'command', 'main'):
+        for cand in (small, case):
+            c = json.loads(json.dumps(cand))
+            c['prev_argv'] = full_assignment_argv(c)
+            if label in fresh_labels(c):
+                return c, True
+    return case, False
+
+
 def witness_of(case, impl, model, spec, label, note):
     return {'case': case, 'failed': label, 'argv': case['argv'], 'impl': impl, 'model': model.get('res'),
             'expected_by_property': (spec or {}).get('expect'), 'note': note}
@@ -392,7 +448,8 @@ def witness_of(case, impl, model, spec, label, note):
 
 def account(st, case, impl, model, spec):
     st.case({'path': case['path'], 'spec': [[o['name'], o['type'], o['short'], o['long'], o['inverse']] for o in case['spec'][case['n_base']:]],
-             'argv': case['argv'], 'env': case['env'], 'ini': case['ini'], 'dodo': case['dodo']},
+             'argv': case['argv'], 'env': case['env'], 'ini': case['ini'], 'dodo': case['dodo'],
+             'prev': case.get('prev_argv')},
             nontrivial(case, impl))
     st.traces += 1
     st.count('path:' + case['path'])
@@ -417,6 +474,8 @@ def account(st, case, impl, model, spec):
     st.count('sources:' + (src or '-') + ('+argv' if case['argv'] else ''))
     if case['sep']:
         st.count('sep')
+    if case.get('prev_argv') is not None:
+        st.count('history:earlier-argv-same-object')
     st.count('positional:%d' % len(case['pos']))
 
 
@@ -432,13 +491,18 @@ def process_batch(batch):
                 continue
             seen.add(label)
             small = case
+            extra = ''
             if shrunk < 2:
                 shrunk += 1
                 small = shrink(case, label)
+                small, ok = standalone_witness(case, small, label)
+                if not ok:
+                    extra = ' [seen only after earlier cases in the same process: state leaks between parses; ' \
+                            'not reproduced standalone]'
             c2, i2, m2, s2 = eval_cases([small])[0]
             v2 = [v for v in judge(c2, i2, m2, s2)[0] if v[0] == label]
-            st.violation(witness_of(c2, i2, m2, s2, label, v2[0][1] if v2 else note), label,
-                         v2[0][1] if v2 else note)
+            st.violation(witness_of(c2, i2, m2, s2, label, (v2[0][1] if v2 else note) + extra), label,
+                         (v2[0][1] if v2 else note) + extra)
         if not viol:
             for note in div[:1]:
                 st.divergence(witness_of(case, impl, model, spec, 'correspondence', note), 'correspondence ' + note)
@@ -550,6 +614,8 @@ def replay(ctx, data):
     print('path    :', c['path'])
     print('options :', json.dumps(c['spec'][c['n_base']:]))
     print('env     :', c['env'], ' config section:', c['ini'], ' GLOBAL:', c['glob'], ' DOIT_CONFIG:', c['dodo'])
+    if c.get('prev_argv') is not None:
+        print('earlier :', c['prev_argv'], '(handled first by the same parser / command object / process)')
     print('argv    :', c['argv'])
     print('impl    :', json.dumps(impl)[:1500])
     print('model   :', json.dumps(model.get('res'))[:800])
@@ -653,3 +719,14 @@ def generated_obligations(ctx):
     lines.append('end GenC16')
     ctx.extra['generated_tables'] = summary
     return '\n'.join(lines) + '\n', n
+
+
+if __name__ == '__main__':
+    import sys
+    if '--judge' in sys.argv:
+        _case = json.loads(sys.stdin.read())
+        common.use_repo()
+        _c, _impl, _model, _spec = eval_cases([_case])[0]
+        _viol, _div = judge(_c, _impl, _model, _spec)
+        common.cleanup_scratch()
+        print(json.dumps({'viol': _viol, 'div': _div}))
